@@ -17,6 +17,21 @@ CHECKS = {
               'buckets and drop_at. Held on the executions explored - not a proof for all histories.'),
         note='trusts numpy and the 60-line list model in vf/checks/c18.py; negative delete indices and step slices are not driven',
         ref='DESIGN.md section 3 C18'),
+    'C02': dict(
+        technique='event-trace monitor: offline polyline-path checker over recorded order/candle events of real backtests',
+        text=('Random scripted sessions (both simulators, spot/futures, gaps, flats, lattice prices) run through the real '
+              'research.backtest under the tracer; every fill, every end of minute and every end of chunk is judged against '
+              'the independent intra-minute path model (fill on the remaining path, path order respected, nothing in range left '
+              'active, market orders executed at once at the current price). Held on the executions explored.'),
+        note='trusts vf/pathmon.py (polyline model) and vf/gen.normalise; fast simulator judged per minute/chunk range only',
+        ref='DESIGN.md section 3 C02'),
+    'C08': dict(
+        technique='event-trace monitor over bounded-exhaustive lattice arrangements executed by the real step simulator + split_candle oracle',
+        text=('Part A runs the real step simulator on every (thorough) / a sample of (quick) arrangement of previous close, '
+              'O/H/L/C, <=3 resting orders and a reaction order on a 5-level lattice and judges the fill sequence with the '
+              'polyline path model; Part B checks split_candle on every valid lattice candle x price and on random candles.'),
+        note='exhaustive only for the stated lattice sub-spaces; real-valued candles are sampled',
+        ref='DESIGN.md section 3 C08'),
 }
 
 NOT_YET = 'check under construction in this round (see DESIGN.md section 3); not claimed until it runs clean on the unchanged tree'
